@@ -95,6 +95,22 @@ func spice(r *rand.Rand, g *ast.Grammar) (planted int) {
 		pvpeg.WalkExpr(rule.Expr, func(e ast.Expression) {
 			switch e := e.(type) {
 			case *ast.LitMatcher:
+				if e.Val != "" && utf8.ValidString(e.Val) && r.Intn(25) == 0 {
+					// a byte that is not UTF-8 (written \xHH in a grammar) next to a capital letter, with the i flag: the
+					// letters still have to be folded
+					rs := []rune(e.Val)
+					pos := r.Intn(len(rs) + 1)
+					stray := string([]byte{byte(0x80 + r.Intn(0x80))})
+					up := string(rune('A' + r.Intn(26)))
+					mid := stray + up
+					if r.Intn(2) == 0 {
+						mid = up + stray
+					}
+					e.Val = string(rs[:pos]) + mid + string(rs[pos:])
+					e.IgnoreCase = true
+					planted++
+					return
+				}
 				if e.Val == "" || !utf8.ValidString(e.Val) || r.Intn(5) != 0 {
 					return
 				}
